@@ -573,8 +573,10 @@ def wrapper_family_rule(chk, P, prefix, trait, floor, allow=None, check_return=T
         if len(ws) < floor:
             raise mir.AnchorMissing("wrapper impls of %s (found %d, expected >= %d)" % (trait, len(ws), floor))
         union = set()
-        for i in ws:
-            union |= {it["name"] for it in i.get("items", ()) if it.get("kind") == "Fn"}
+        for i in P.impls:
+            # every impl of the trait counts: a provided method some implementor overrides is one a wrapper must pass on
+            if i.get("trait") == trait:
+                union |= {it["name"] for it in i.get("items", ()) if it.get("kind") == "Fn"}
         ev = []
         for i in ws:
             have = {it["name"] for it in i.get("items", ()) if it.get("kind") == "Fn"}
